@@ -3,6 +3,8 @@ import copy
 import itertools
 import random
 
+import numpy as np
+
 from ..probes import Clock, Models, make_names
 from ..scriptrng import dfs, PALETTE_SMALL
 from ..harness import make_storage, Scenario, gen_cfg
@@ -144,7 +146,9 @@ def main(run):
                 zero_feats = [f for j, f in row_order if rnd.random() < 0.3]
                 row = collections.defaultdict(float, {k: v for k, v in row.items() if k not in zero_feats})
             st.update(row, t)
-        defaults = {f: (rnd.choice([0, 0.0, False, "", None]) if rnd.random() < 0.4 else -(j + 1)) for j, f in enumerate(names)}
+        # defaults of every plausible kind: falsy values, category strings, tuples / lists (an embedding, a bag of tokens), arrays
+        exotic = [0, 0.0, False, "", None, "red", "unknown-category", ("a", "b"), (1.5, 2.5, 3.5), [7, 8], b"raw", np.float32(0.25), np.int64(-3)]
+        defaults = {f: (rnd.choice(exotic) if rnd.random() < 0.5 else -(j + 1)) for j, f in enumerate(names)}
         strat_arg = rnd.choice([strategy, "".join(list(strategy)), str(__import__("numpy").str_(strategy))])   # equal strings, not the literal object
         imp = DefaultImputer(model, dict(defaults)) if kind == "default" else MarginalImputer(model, strat_arg, st)
         x_full = {f: 900000 + j for j, f in enumerate(names)}
